@@ -40,7 +40,7 @@ def gen(rng):
                                p_have=rng.choice([0.2, 0.5, 0.8]),
                                id_hi=hi, lock="absent", max_stmts=4, min_missing=rng.choice([0, 1, 1, 2, 3]),
                                special_ids=special, many=rng.choice([100, 256, 700]) if rng.random() < 0.02 else None,
-                               many_files=rng.choice([64, 255, 256, 257, 300]) if rng.random() < 0.015 else None)
+                               many_files=rng.choice([64, 255, 256, 257, 300]) if rng.random() < 0.015 else None, big_p=0.008)
     ids = list(world.wm_ids(wm).values())
     top = max(ids) if ids else 0
     if lockmode == "ahead":
